@@ -54,17 +54,14 @@ LEVEL_NOTE = ("Trusts MPF's YAML loader for the reference copy of the spec, Pyth
               "the machine's device collections for machine(...) identity, and the generator's value classes.")
 HORIZONS = {"virtual_time_advanced_s": 0}
 TIERS = {
-    "quick": {"cases": 640, "batch": 10, "case_timeout": 120},
+    "quick": {"cases": 480, "batch": 15, "case_timeout": 120},
     "thorough": {"cases": 9600, "batch": 60, "case_timeout": 240},
 }
-MIN_EVALS = {
-    "quick": {"type": 60000, "range": 1500, "enum": 3000, "complete": 20000, "unknown_key": 1500,
-              "dropped_key": 60000, "spec_unchanged": 60000, "time_direct": 10000, "time_validator": 3000,
-              "default": 20000, "machine": 1000},
-    "thorough": {"type": 1800000, "range": 45000, "enum": 90000, "complete": 600000, "unknown_key": 45000,
-                 "dropped_key": 1800000, "spec_unchanged": 1800000, "time_direct": 300000, "time_validator": 90000,
-                 "default": 600000, "machine": 30000},
-}
+_MIN_QUICK = {"type": 450000, "range": 26000, "enum": 19000, "complete": 300000, "unknown_key": 1100,
+              "dropped_key": 75000, "spec_unchanged": 110000, "time_direct": 5000, "time_validator": 30000,
+              "default": 300000, "machine": 4500}
+# about half of what a run on the unchanged tree evaluates (quick: 480 cases; thorough: 20x as many)
+MIN_EVALS = {"quick": _MIN_QUICK, "thorough": {k: v * 20 for k, v in _MIN_QUICK.items()}}
 SHRINK_KEYS = ["ops"]
 
 KEYS_PER_CASE = 24
@@ -294,7 +291,8 @@ def targeted(rng, validator, index_spec, depth=0):
                            "1,2", "300,0,0", "red ", "#ff0000", "fff", "0,0,0,0", [1.5, 2, 3], "a,b,c", 0, "",
                            "(tok)", "-1,0,0", "off", 255, "1.5,0,0", [], ["255", "0", "0"]])
     if name == "pow2":
-        return rng.choice([16, "16", 1, 2, 4.0, 4.5, 0, 3, -4, True, "abc", 2 ** 40, "1024", 1024.0, [4], "4 ", NAN])
+        return rng.choice([16, "16", 1, 2, 4.0, 4.5, 0, 3, -4, True, "abc", 2 ** 40, "1024", 1024.0, [4], "4 ", NAN,
+                           2.5, 8.25, 1024.5, 2.0000001, "4.5", -0.5, 0.5])
     if name == "gain":
         return rng.choice([0.5, "0.5", "-3db", "-3 dB", "-inf", "nan", 2, -1, "abc", "db", "1e400", "5000db", 1, True])
     if name == "int_from_hex":
